@@ -62,16 +62,17 @@ type c18coll struct {
 	next int
 }
 
-func (c *c18coll) id(o any) int {
+// identities are strings so that "none" and an identity are values of one kind in the specification
+func (c *c18coll) id(o any) string {
 	if o == nil {
-		return -1
+		return "none"
 	}
 	if x, ok := c.ids[o]; ok {
-		return x
+		return fmt.Sprint("#", x)
 	}
 	c.next++
 	c.ids[o] = c.next
-	return c.next
+	return fmt.Sprint("#", c.next)
 }
 
 func (c *c18coll) list() []any {
@@ -217,7 +218,7 @@ func execC18(seg []Ev) []Ev {
 			if c.kind != "variables" {
 				n = c.fns.Length()
 			}
-			e["ret"] = -1
+			e["ret"] = "none"
 			if i >= 0 && i < n {
 				if c.kind == "variables" {
 					e["ret"] = c.id(c.vars.Get(i))
